@@ -47,9 +47,14 @@ C2LEAN_FNS = ["m_get_high_bit", "m_get_mode", "m_get_reserved", "m_get_resolutio
               "getDirectedEdgeOrigin", "isValidDirectedEdge", "maxFaceCount",
               # an out pointer handed on to a callee in a return expression, file-scope const scalars, assert expansions
               # (NEVER / ALWAYS: the failing branch is "undefined", so `_defined` theorems prove it unreachable)
-              "validateChildPos", "getNumCells", "maxGridDiskSize"]
+              "validateChildPos", "getNumCells", "maxGridDiskSize",
+              # `break`, branches that return on some paths only (the continuation is duplicated), callees with
+              # uninitialised locals (their `u_` parameters are handed up)
+              "cellToChildPos",
+              # the small public getters
+              "getResolution", "getBaseCellNumber", "isResClassIII", "pentagonCount", "res0CellCount"]
 C2LEAN_UNROLL = {"_h3LeadingNonZeroDigit": 16, "_h3Rotate60ccw": 16, "_h3Rotate60cw": 16, "cellToParent": 16,
-                 "_h3RotatePent60ccw": 16, "_h3RotatePent60cw": 16, "_ipow": 6, "setH3Index": 16}
+                 "_h3RotatePent60ccw": 16, "_h3RotatePent60cw": 16, "_ipow": 6, "setH3Index": 16, "cellToChildPos": 16}
 C2LEAN_FILES = ["h3Index.c", "coordijk.c", "baseCells.c", "mathExtensions.c", "directedEdge.c", "latLng.c", "algos.c"]
 
 
